@@ -14,10 +14,19 @@ for s in $SEEDS; do
   log=.build/seed-$s.log
   VERIF_EXTRA_OVERLAY=$ov ./check $prop --tier quick > $log 2>&1; rc=$?
   nv=$(grep -c '^VIOLATION' $log)
-  if [ $rc -eq 1 ] && [ $nv -gt 0 ]; then r=CAUGHT; else r="NOT-REPORTED(rc=$rc)"; fail=1; fi
+  if [ $rc -eq 1 ] && [ $nv -gt 0 ]; then r=CAUGHT; else
+    r="NOT-REPORTED(rc=$rc)"
+    for other in $(python3 -c "import json;print(' '.join(json.load(open('seeded/$s/meta.json')).get('also_checked_by',[])))"); do
+      VERIF_EXTRA_OVERLAY=$ov ./check $other --tier quick > $log.$other 2>&1; rc2=$?
+      nv2=$(grep -c '^VIOLATION' $log.$other)
+      if [ $rc2 -eq 1 ] && [ $nv2 -gt 0 ]; then r="CAUGHT-BY-$other($prop:rc=$rc)"; nv=$nv2; log=$log.$other; fi
+      rm -f replays/$other-*.json
+    done
+    case "$r" in NOT-REPORTED*) fail=1;; esac
+  fi
   echo "$s $prop $r violations=$nv $(grep -m1 '^VIOLATION' $log | sed 's/.*key=//' | cut -c1-100)" | tee -a $OUT
   rm -rf /tmp/seedov-$s
   rm -f replays/$prop-*.json
 done
-echo "summary: $(grep -c CAUGHT $OUT) caught of $(wc -l < $OUT)" | tee -a $OUT
+echo "summary: $(grep -c "CAUGHT" $OUT) caught of $(wc -l < $OUT)" | tee -a $OUT
 exit $fail
